@@ -634,7 +634,7 @@ package loadbalancer
 //@      && (forall k1 string :: forall k2 string :: {p.pools[k1], p.pools[k2]} has(p.pools, k1) && has(p.pools, k2) && k1 != k2 ==> p.pools[k1] != p.pools[k2])
 
 //@ func (*WebSocketPool).Put
-//@   props C20 C12
+//@   props C20 C12 C19
 //@   mode seq, mon
 //@   requires unlocked(p.mu) && poolsOK(p)
 //@   ensures seq: kept: poolsOK(p)
@@ -643,6 +643,9 @@ package loadbalancer
 //@   ensures seq: pooled: result ==> has(p.pools, backend) && len(p.pools[backend].idle) >= 1
 //@             && p.pools[backend].idle[len(p.pools[backend].idle) - 1].conn == conn
 //@   ensures seq: overflow_is_closed: !result && conn != nil ==> conn.closed
+// C19 "pooled connections are closed": once Shutdown has run nothing is pooled any more - a connection handed back
+// afterwards is closed on the spot and no new per-backend pool comes into being (nobody would ever empty it)
+//@   ensures seq: nothing_is_pooled_after_shutdown@C19: old(p.closed) && conn != nil ==> !result && conn.closed && len(p.pools) == old(len(p.pools)) && (forall k string :: {p.pools[k]} has(p.pools, k) == old(has(p.pools, k)))
 //@   ensures seq: earlier_entries_kept: old(has(p.pools, backend)) ==> p.pools[backend] == old(p.pools[backend]) && len(p.pools[backend].idle) >= old(len(p.pools[backend].idle))
 //@             && (forall i int :: {p.pools[backend].idle[i]} 0 <= i && i < old(len(p.pools[backend].idle)) ==> p.pools[backend].idle[i].conn == old(p.pools[backend].idle[i].conn))
 //@   modifies mapof(p.pools), connPool.idle, connPool.active, connPool.backend, connPool.idleTimeout, elems(p.pools[backend].idle), net.Conn.closed
@@ -904,6 +907,7 @@ package loadbalancer
 //@ field weightedBackend.currentWeight guarded_by WeightedRoundRobinStrategy.mutex
 //@ field healthChecker.unhealthyBackends guarded_by healthChecker.unhealthyBackendMu
 //@ field WebSocketPool.pools guarded_by WebSocketPool.mu
+//@ field WebSocketPool.closed guarded_by WebSocketPool.mu
 //@ field connPool.idle guarded_by connPool.mu
 //@ field connPool.active guarded_by connPool.mu
 
@@ -948,7 +952,8 @@ package loadbalancer
 //@   ghost release mu :: pool.detached := true
 //@   requires unlocked(p.mu) && poolsOK(p) && noConnPoolLocks() && allIdleOK()
 //@   ensures pool_emptied: len(p.pools) == 0 && p.pools != nil
-//@   modifies p.pools, key:map[string]*loadbalancer.connPool, connPool.idle, net.Conn.closed
+//@   ensures the_pool_stays_shut: p.closed
+//@   modifies p.pools, p.closed, key:map[string]*loadbalancer.connPool, connPool.idle, net.Conn.closed
 
 // Probes in flight are bounded by the balancer context: Stop must cancel it BEFORE it waits for them (waiting
 // first lets a hung probe run into its own timeout and Stop overrun the shutdown budget).
@@ -960,8 +965,8 @@ package loadbalancer
 //@   ghost before Wait :: cancelledWhenWaiting := lb.ctx.cancelled
 //@   ensures context_cancelled_before_return: lb.ctx.cancelled
 //@   ensures probes_are_cancelled_before_they_are_awaited: cancelledWhenWaiting
-//@   ensures pool_emptied: lb.wsPool != nil ==> len(lb.wsPool.pools) == 0
-//@   modifies lb.ctx.cancelled, WebSocketPool.pools, key:map[string]*loadbalancer.connPool, connPool.idle, net.Conn.closed, cancelledWhenWaiting
+//@   ensures pool_emptied: lb.wsPool != nil ==> len(lb.wsPool.pools) == 0 && lb.wsPool.closed
+//@   modifies lb.ctx.cancelled, WebSocketPool.pools, WebSocketPool.closed, key:map[string]*loadbalancer.connPool, connPool.idle, net.Conn.closed, cancelledWhenWaiting
 
 // a probe routine entered after cancellation sends nothing and touches nothing
 //@ func (*LoadBalancer).checkBackendHealth
